@@ -178,7 +178,7 @@ PROPS["C06"] = Prop(
          "queried on random dates next to the explicit union of the same tables (model-free cross-check); malformed "
          "names; equality between calendars built equal / differing on one day / differing in settlement only",
     classify=_cls_c06, exhaustive=lambda tier: False, trusted=_dates_trusted + [
-        "Rust's Unicode to_lowercase is modelled as ASCII lower-casing",
+        "Rust's Unicode to_lowercase is modelled by lowerStr, exact on U+0000-U+00FF and U+0400-U+045F (swept by the C20 stream)",
         "the built-in tables reach the model through `defname` lines dumped from the running code"],
     assumptions=_dates_assume, oracle=C06Oracle(), allow_badop=True)
 
@@ -327,7 +327,8 @@ PROPS["C18"] = Prop(sort_names=True,
 PROPS["C19"] = Prop(sort_names=True,
     rule="random Dual/Dual2 pairs over all layouts of a 3-name pool with all sign combinations: 6 comparisons, float "
          "comparisons on both sides, abs, signum, % in the three operand forms, zero/one neutrality, sums of length 0..8 "
-         "(typed and through Number). non-trivial = every op line",
+         "(typed and through Number); once per run all 7 x 7 pairs of {0, -0, NaN, +-inf, +-1.5} for both types through "
+         "every comparison form (IEEE order is not total there). non-trivial = every op line",
     classify=_cls_c19, mode="vexact", exhaustive=lambda tier: False, trusted=_dual_trusted, assumptions=_dual_assume)
 
 
@@ -343,8 +344,10 @@ def _cls_formula(t, impl):
 
 _formula_rule = ("random formulas (depth 1-6) over + - * / neg pow exp log ncdf nicdf abs on 1-5 leaves (dual numbers with 0-4 "
                  "names from a pool of 6, some sharing storage; floats; constants on either side), values steered inside the "
-                 "differentiable domain, owned/borrowed operand forms varied by position; compared close-float (1e-9 rel): "
-                 "value, gradient by name%s. non-trivial = >= 2 operators and >= 2 dual leaves")
+                 "differentiable domain, owned/borrowed operand forms varied by position; probes of pow at base exactly 0 with "
+                 "exponents 0..3; compared close-float (1e-9 relative, absolute part relative to the sum of the absolute values "
+                 "of the terms of each derivative; variables in name order): value, gradient by name%s. non-trivial = >= 2 "
+                 "operators and >= 2 dual leaves")
 
 PROPS["C01"] = Prop(rule=_formula_rule % "", classify=_cls_formula, mode="close", cond_rescue=True, sort_names=True, exhaustive=lambda tier: False,
                     trusted=_dual_trusted + ["statrs erfc/erfc_inv ported to Lean Float for the driver; Φ, Φ⁻¹ abstract in the theorems",
@@ -633,14 +636,18 @@ PROPS["C11"] = Prop(semantic_names=True,
     rule="index_left EXHAUSTIVELY on all strictly increasing lists of length 2..6 (quick) / 2..9 (thorough) over a 9 / 12 "
          "point grid with all grid and half-grid query points; 500 (quick) random curves per run over the 5 rules, 2-40 "
          "nodes, spacing 1 day..30 years, random supply order, queried at every node date and both neighbours, before, "
-         "after and inside; node read-back. values bit-exact (the model mirrors the operation order). non-trivial = all",
+         "after and inside; node read-back; first node anywhere 1960..2024 (negative and 7-10 digit timestamps), one step in "
+         "six keeps the node value (flat segments); every curve ALSO built directly through the public CurveDF::try_new "
+         "from another shuffled order, queried before and after its own to_json/from_json. values bit-exact (the model "
+         "mirrors the operation order). non-trivial = all",
     classify=_cls_curve, mode="close", exhaustive=lambda tier: False, trusted=_curve_trusted + _dual_trusted[:1],
     assumptions=_dual_assume)
 
 PROPS["C12"] = Prop(semantic_names=True, 
     rule="random curves (5 rules x AD order 0/1/2 x with/without index base, some nodes supplied as dual numbers with "
          "their own variables) x random order-switch sequences of length 0..8; after every switch: order, node read-back "
-         "(values, tags, sensitivities), look-ups and index values with gradients and Hessians by name",
+         "(values, tags, sensitivities), look-ups and index values with gradients and Hessians by name; float-noded curves "
+         "also built directly through CurveDF::try_new and taken through order switches interleaved with JSON round trips",
     classify=_cls_curve, mode="close", exhaustive=lambda tier: False, trusted=_curve_trusted + _dual_trusted[:1],
     assumptions=_dual_assume)
 
@@ -959,7 +966,8 @@ def _key_c16(t, il, ml):
 PROPS["C16"] = Prop(
     rule="per round: Dual and Dual2 with 0-4 names and ARBITRARY FINITE doubles (uniform over bit patterns, subnormals, +-0, "
          "extremes), Cal / UnionCal / NamedCal, an FX tree market (2-5 currencies, with/without settlement, at a random "
-         "order), a curve (5 rules x 3 orders, with/without index base), a spline of each of the 3 types unsolved and solved, "
+         "order), a curve (5 rules x 3 orders, with/without index base, node dates from 1960 on; also as a bare CurveDF through "
+         "its own to_json/from_json with node read-back), a spline of each of the 3 types unsolved and solved, "
          "40 bare doubles. `ser`: bincode bytes of the implementation vs the bytes the Lean codec model predicts (exact). "
          "`rt`: model-free round trips on the real code - to_json/from_json, the tagged from_json entry point, bincode - "
          "with == and a query battery; `f64json`: the JSON text layer on a bare double",
@@ -986,8 +994,8 @@ def _nclass(n):
 def _cls_c20(t, impl):
     op = t[0]
     head = impl.split(" ", 2)
-    if op in ("loadjson", "loadjsonx"):
-        return "loadjson:" + (" ".join(head[:2]) if head[0] == "ok" else head[0]), True
+    if op in ("loadjson", "loadjsonx", "loadtyped"):
+        return op.rstrip("x") + ":" + (" ".join(head[:2]) if head[0] == "ok" else head[0]), True
     if op in ("adddays", "addbus", "lag"):
         return "%s:n=%s:%s" % (op, _nclass(t[3]), "err" if impl == "err" else "date"), True
     if op == "addmonths":
@@ -1042,7 +1050,7 @@ def _oracle_c20(t, impl):
     if op == "spshape":
         if int(kv["n"]) != int(kv["t"]) - int(kv["k"]) or kv["c"] not in ("-", kv["n"]):
             return "spline shape invariant broken after csolve: %s" % impl
-    if op in ("loadjson", "loadjsonx") and impl.startswith("ok "):
+    if op in ("loadjson", "loadjsonx", "loadtyped") and impl.startswith("ok "):
         kind = impl.split()[1]
         if kind == "Dual" and kv["v"] != kv["d"]:
             return "loaded a Dual with %s names and %s sensitivities" % (kv["v"], kv["d"])
@@ -1070,6 +1078,8 @@ def _cmp_c20(t, il, ml):
 def _key_c20(t, il, ml):
     if t[0] in ("loadjson", "loadjsonx"):
         return "loadjson:" + t[1][:64]
+    if t[0] == "loadtyped":
+        return "loadtyped:" + t[1] + ":" + t[2][:64]
     return " ".join(t[:6])
 
 
@@ -1078,13 +1088,14 @@ PROPS["C20"] = Prop(
          "8-bit day counts through add_days / add_bus_days / lag (rotating), the extremes through all three; add_months "
          "with every roll day 1..31 and eom/som/imm/unspecified at offsets landing anywhere in 1970-02..2200-11 (both "
          "ends hit); roll; Dual/Dual2::try_new with mismatched and duplicated names; Ccy/FXPair/NamedCal::try_new on "
-         "ASCII and non-ASCII strings; FXRates::try_new on trees, cycles, repeats and mixed settlement; csolve on "
+         "ASCII and non-ASCII strings (once per run: every code point of U+0000-U+00FF and U+0400-U+045F in a 3-byte code, "
+         "alone and paired with its lower-cased spelling); FXRates::try_new on trees, cycles, repeats and mixed settlement; csolve on "
          "regular, singular (zero matrix, repeated sites), non-finite and mismatched systems; ~320 JSON documents built "
          "by the library's own to_json for every tagged type and mutated 0-3 times (delete / duplicate / rename / add a "
          "field, object<->array, replace or perturb values, drop / repeat / swap elements), plus non-JSON texts. "
          "Every call runs under catch_unwind; JSON loading runs in a worker process so that an abort is an outcome",
     classify=_cls_c20, mode="exact", finding_key=_key_c20, oracle=_oracle_c20, compare_op=_cmp_c20,
-    correspondence_only=lambda t, il, ml: bool(t) and t[0] in ("loadjson", "loadjsonx")
+    correspondence_only=lambda t, il, ml: bool(t) and t[0] in ("loadjson", "loadjsonx", "loadtyped")
     and il not in ("panic", "abort", "bad-op") and (il == "err" or ml == "err"),
     exhaustive=lambda tier: False,
     def_ops=DEF_OPS,
@@ -1094,6 +1105,6 @@ PROPS["C20"] = Prop(
              "chrono's date/weekday text parsing is modelled only for the spellings the library itself writes"],
     assumptions=["calendars have at least one working weekday (an all-seven-day mask makes every adjustment loop forever)",
                  "JSON numbers are exactly representable doubles (knot order is compared exactly)",
-                 "Rust's Unicode lower-casing is modelled as ASCII lower-casing; generated strings have no cased "
-                 "non-ASCII letters",
+                 "Rust's Unicode lower-casing is modelled exactly on U+0000-U+00FF and U+0400-U+045F (every code point swept on "
+                 "every run); generated strings have no cased letters outside those ranges",
                  "object keys of a curve's node map carry no JSON escapes (serde_json reads an i64 key from the raw text)"])
